@@ -4,6 +4,7 @@
    allocation failure and aborts are runtime behaviour a Gallina model cannot exhibit (sampled by
    catch_unwind + timeout in the correspondence run). *)
 Require Import Enr.Bytes Enr.Consts Enr.Rlp Enr.SortedMap Enr.Keccak Enr.Record Enr.Update Enr.Text Enr.Spec.
+Require Import Enr.NodeId EnrProofs.Thm_Sites.
 Require Import EnrProofs.Thm_Misc EnrProofs.Thm_More EnrProofs.Thm_Valid EnrProofs.FuelLemmas.
 Open Scope N_scope.
 
@@ -76,3 +77,17 @@ Print Assumptions decode_never_out_of_fuel.
 Theorem decode_vec_never_out_of_fuel : forall (c : crypto) kt b, decode_vec c kt b <> Err EFuel.
 Proof. exact FuelLemmas.decode_vec_never_out_of_fuel. Qed.
 Print Assumptions decode_vec_never_out_of_fuel.
+
+(* ---- the guards of the Rust's slice / expect sites hold whenever the site is reached (so the model's
+   truncating takeN and total conversions agree with the panicking Rust there) ---- *)
+Theorem slice_in_bounds : forall b l n p, bytes_ok b -> hdr_decode b = Ok (l, n, p) -> n <= lenN p /\ lenN (takeN n p) = n.
+Proof. exact Thm_Sites.slice_in_bounds. Qed.
+Print Assumptions slice_in_bounds.
+Theorem node_id_len : forall pk, lenN (node_id_of pk) = 32.
+Proof. exact Thm_Sites.node_id_len. Qed.
+Print Assumptions node_id_len.
+Theorem display_slices_in_bounds : forall x, lenN x = 32 ->
+  lenN (hex_encode x) = 64 /\ lenN (firstn 4 (hex_encode x)) = 4 /\
+  lenN (skipn (length (hex_encode x) - 4) (hex_encode x)) = 4.
+Proof. exact Thm_Sites.display_slices_in_bounds. Qed.
+Print Assumptions display_slices_in_bounds.
